@@ -40,6 +40,11 @@
 // writer – with unique request payloads and answers derived from the request they answer, so that
 // an unaffected requester handed somebody else's answer is detected (class misrouted-answer).
 //
+// The window (window.go): no warm-up; the teardown lands before the first send, between the forward
+// loop's Open of the out-writer and its Write, or after the first send while the backward listener
+// (started by that Open in its own goroutine) is still parked before its own Open – goroutines
+// parked at the pkg/port yield points.
+//
 // The whole enumeration runs in a child process of the harness binary: a panic inside a node
 // goroutine kills the process and is reported with the scenario that was running.
 package c03
@@ -1966,8 +1971,8 @@ func Run(c *lib.Ctx) {
 
 	// 1. corpus: hand-written crash points (witnesses of the fixed defect)
 	for i, f := range c.CorpusFiles() {
-		if isFanCorpus(f) {
-			continue // fan-in family: run by runFanIn
+		if isFanCorpus(f) || isWinCorpus(f) {
+			continue // run by runFanIn / runWindows
 		}
 		cc, e := parseCorpus(f, i+1)
 		if e != "" {
@@ -2005,6 +2010,12 @@ func Run(c *lib.Ctx) {
 		} else {
 			unknownFails++
 		}
+		fails = append(fails, lib.OracleFail{Class: class, What: what, Replay: replay})
+	}, func(line string) { fmt.Fprintln(prog, line) })
+
+	// 3b. the window between a writer's creation and the start of its backward loop (window.go)
+	runWindows(c, model, func(class, what, replay string) {
+		unknownFails++
 		fails = append(fails, lib.OracleFail{Class: class, What: what, Replay: replay})
 	}, func(line string) { fmt.Fprintln(prog, line) })
 
